@@ -27,7 +27,8 @@ Import ListNotations.
 From TI Require Import lib.Term lib.TermFacts lib.Rect lib.Lines lib.TermScroll
      model.Padding model.Draw model.GfxRender
      proofs.BlockRect proofs.DrawLines proofs.DrawProofs proofs.DrawProofsOld
-     proofs.DrawStyles proofs.DrawFinal lib.RectCheck model.DrawTie proofs.DrawTieProofs.
+     proofs.DrawStyles proofs.DrawFinal lib.RectCheck model.DrawTie proofs.DrawTieProofs
+     lib.TermPlace proofs.DrawPlace.
 Open Scope Z_scope.
 
 (** the loop invariant of [_animate_] (induction on the list of later frames): after every
@@ -183,8 +184,8 @@ Print Assumptions C06_old_draw_rejects_iff.
 (** the executable predicate the correspondence evaluates on the implementation's own
     bytes implies the final-state predicate of the theorems *)
 Theorem C06_final_ok_sound :
-  forall W H pw ph Ref St r0 hide,
-  final_ok W H pw ph Ref St r0 = true ->
+  forall kitty W H pw ph Ref St r0 hide,
+  final_ok kitty W H pw ph Ref St r0 = true ->
   DrawFinal W H 0 0 (start r0 0) hide pw ph Ref St.
 Proof. exact final_ok_sound. Qed.
 Print Assumptions C06_final_ok_sound.
@@ -198,3 +199,39 @@ Theorem C06_docb_spec :
         <-> old_doc_fits cs scroll anim dyn w h rawW rawH tw th).
 Proof. exact (conj docb_spec old_docb_spec). Qed.
 Print Assumptions C06_docb_spec.
+
+(** kitty <= 0.25.0 (frames are not self-clearing: [_clear_frame()] deletes by z-index
+    before every later frame): for every first frame and every list of later frames (any
+    frame count and number of loops) whose placements are all on the animation z-index
+    [- 2^31] — which is what [KittyImage._display_animated] renders them on, whatever
+    [z_index] the caller passed — the image placements left on the screen after [draw()]
+    ([TermPlace.live]: placed and not removed by a matching delete command) are exactly
+    those of the padded LAST frame drawn alone: no placement of an earlier frame survives *)
+Theorem C06_old_animate_no_stale_placements :
+  forall lm W' H' (ha va : nat) w h (tty : bool)
+         (ls1 : list (list tok)) (lss : list (list (list tok))) t0,
+  LinesRect all_cells w h ls1 -> Forall (LinesRect all_cells w h) lss ->
+  (forall ln, In ln ls1 -> ZOnly anim_z ln) ->
+  Forall (fun ls => forall ln, In ln ls -> ZOnly anim_z ln) lss ->
+  okat t0 (row t0) lm ->
+  let fmt := fun ls => format_render W' H' ha va w h (joinlf ls) in
+  live (exec_evs lm t0 (old_anim_stream tty (Z.max H' h) [] (kitty_clear true) (fmt ls1) (map fmt lss)))
+  = live (exec_evs lm t0 (fmt (lastframe ls1 lss))).
+Proof. exact old_animate_no_stale. Qed.
+Print Assumptions C06_old_animate_no_stale_placements.
+
+(** the kitty render models place everything on the z-index they are given *)
+Theorem C06_kitty_frames_zonly :
+  forall w h z mix blend, 0 < w ->
+  (forall pls ln, In ln (map (kitty_line w z mix blend) pls) -> ZOnly z ln)
+  /\ (forall pl ln, In ln (kitty_whole_ls w h z mix blend pl) -> ZOnly z ln).
+Proof. exact kitty_frames_zonly. Qed.
+Print Assumptions C06_kitty_frames_zonly.
+
+(** the executable predicate, with the kitty flag, also decides the placement clause *)
+Theorem C06_final_ok_live :
+  forall W H pw ph Ref St r0,
+  final_ok true W H pw ph Ref St r0 = true ->
+  live (exec_evs 0 (start r0 0) St) = live (exec_evs 0 (start r0 0) Ref).
+Proof. exact final_ok_live. Qed.
+Print Assumptions C06_final_ok_live.
